@@ -345,7 +345,7 @@ static Snapshot snapshot()
 		}
 		lrtr_free(res);
 	}
-	if (shim_spki_count(E->spki) != (unsigned)std::count_if(s.all.begin(), s.all.end(), [](const std::pair<int, int> &p) { return p.first >= 40 && p.first < 1000; }))
+	if (shim_spki_count(E->spki) != (unsigned)std::count_if(s.all.begin(), s.all.end(), [](const std::pair<int, int> &p) { return wire::is_key(p.first); }))
 		s.unknown++;
 	return s;
 }
